@@ -100,10 +100,12 @@ def _replay_text(model, rec):
     cp = prs.core_properties
     L = model.get("len_value")
     for s in [("y" * L if isinstance(L, int) and 0 <= L <= 100000 else None), "", "x" * 255, "x" * 256, "a<b&c>\"'", " lead", "\U0001F600" * 3,
-              "&" * 255, "<>" * 127 + "<", "\"" * 255, "R&D <Q3> " * 28, "\u00e9" * 255, "\U0001F600" * 255, "&" * 256, "\u00e9" * 256]:
+              "&" * 255, "<>" * 127 + "<", "\"" * 255, "R&D <Q3> " * 28, "\u00e9" * 255, "\U0001F600" * 255, "&" * 256, "\u00e9" * 256,
+              # line ends are characters like any other: kept as given, counted as given
+              "a\r\nb", "a\rb", "a\nb\n", "\t tab", "x" * 253 + "\r\n", "x" * 254 + "\r\n", "cafe\u0301"]:
         if not isinstance(s, str):
             continue
-        for attr in ("author", "title", "keywords"):
+        for attr in ("author", "title", "keywords", "comments", "category", "subject", "content_status", "identifier", "language", "last_modified_by", "version"):
             try:
                 setattr(cp, attr, s)
             except ValueError:
